@@ -183,13 +183,13 @@ Proof. reflexivity. Qed.
 Lemma ba_len off s : builtin_apply off (str "len") [VStr s] = Ok (gi (slen s)).
 Proof. reflexivity. Qed.
 Lemma ba_lower off s :
-  builtin_apply off (str "lower") [VStr s] = if all_ascii s then Ok (VStr (to_lower_ascii s)) else Unk.
+  builtin_apply off (str "lower") [VStr s] = Ok (VStr (if all_ascii s then to_lower_ascii s else CaseMap.lower_utf8 s)).
 Proof. reflexivity. Qed.
 Lemma ba_upper off s :
-  builtin_apply off (str "upper") [VStr s] = if all_ascii s then Ok (VStr (to_upper_ascii s)) else Unk.
+  builtin_apply off (str "upper") [VStr s] = Ok (VStr (if all_ascii s then to_upper_ascii s else CaseMap.upper_utf8 s)).
 Proof. reflexivity. Qed.
 Lemma ba_trim off s :
-  builtin_apply off (str "trim") [VStr s] = if all_ascii s then Ok (VStr (trim_space s)) else Unk.
+  builtin_apply off (str "trim") [VStr s] = Ok (VStr (if all_ascii s then trim_space s else CaseMap.trim_utf8 s)).
 Proof. reflexivity. Qed.
 Lemma ba_lpad off s ps k l :
   builtin_apply off (str "lpad") [VStr s; VStr ps; VGoInt k l] =
@@ -775,9 +775,9 @@ Proof.
 Qed.
 
 Theorem trim_non_ascii off s : all_ascii s = false ->
-  builtin_apply off (str "trim") [VStr s] = Unk /\
-  builtin_apply off (str "lower") [VStr s] = Unk /\
-  builtin_apply off (str "upper") [VStr s] = Unk.
+  builtin_apply off (str "trim") [VStr s] = Ok (VStr (CaseMap.trim_utf8 s)) /\
+  builtin_apply off (str "lower") [VStr s] = Ok (VStr (CaseMap.lower_utf8 s)) /\
+  builtin_apply off (str "upper") [VStr s] = Ok (VStr (CaseMap.upper_utf8 s)).
 Proof. intros H. rewrite ba_trim, ba_lower, ba_upper, H. repeat split. Qed.
 
 (* ---------- lower, upper ---------- *)
